@@ -311,12 +311,14 @@ type RefProgram struct {
 	Files map[string]string `json:"files,omitempty"` // relative path -> source (import scenarios)
 	Path  []string          `json:"path,omitempty"`  // sys.path entries relative to the scenario root
 	Mode  string            `json:"mode,omitempty"`  // "" exec | "compile" (only report whether it compiles)
+	After *string           `json:"after,omitempty"` // second program run in the same namespace afterwards
 }
 
 type RefResult struct {
 	ID    int      `json:"id"`
 	Trace []string `json:"trace"`
 	Exc   string   `json:"exc"`
+	Exc2  string   `json:"exc2,omitempty"`
 	Error string   `json:"error,omitempty"`
 }
 
